@@ -106,11 +106,11 @@ def run_case(case):
         elif card is qltypes.Cardinality.AT_LEAST_ONE and n < 1:
             viol.append(('cardinality:AT_LEAST_ONE:got-0', f'{where} but the compiler reports AT_LEAST_ONE'))
         mname = getattr(mult, 'name', '')
-        if mname == 'UNIQUE' and not _is_object_path(text) and not _coalesce_of_objects(text, res):
+        if mname == 'UNIQUE' and not _is_object_path(text):
             cs = [TE.canon(v) for v in res]
             if len(set(cs)) != len(cs):
                 dup = next(c for c in cs if cs.count(c) > 1)
-                viol.append(('multiplicity:UNIQUE:duplicates' + _root_cause(text),
+                viol.append(('multiplicity:UNIQUE:duplicates' + (_root_cause(text) or _factoring(text, res)),
                              f'{where}, with duplicates ({dup} occurs {cs.count(dup)} times), but the compiler '
                              f'classifies the result as duplicate-free'))
         elif mname == 'EMPTY' and n:
@@ -190,6 +190,25 @@ def _coalesce_of_objects(text, res):
             return any(has_obj(x) for x in v.values())
         return False
     return ' ?? ' in text and any(has_obj(v) for v in res[:50])
+
+
+def _factoring(text, res):
+    """duplicates that arise because two occurrences of the same (non-detached) type name are one
+    binding by path factoring: the inference code treats everything below such a binding as unique
+    *per binding*, but the binding itself is not part of the result (known finding)"""
+    import re
+    S = preload()
+    stripped = re.sub(r'detached \w+', 'detached_', text)
+    names = [n for n in S['info'].types if len(re.findall(r'(?<![\w:.])' + n + r'(?![\w])', stripped)) >= 2]
+    if not names:
+        return ''
+    if _coalesce_of_objects(text, res):
+        return ':correlated-by-path-factoring:coalesce'
+    # a tuple / set / operator whose operands mention the same type, one of them through a pointer
+    for n in names:
+        if re.search(r'\(?' + n + r'\)?\.\w+', stripped):
+            return ':correlated-by-path-factoring'
+    return ''
 
 
 def _root_cause(text):
